@@ -100,6 +100,12 @@ def make_program(parts):
 
 
 COLLISION_PROBES = [
+    # names that pyrefact generates, already taken by the program (for example from an earlier run of the tool)
+    "PYREFACT_OVERUSED_CONSTANT_0 = '0: the first shared message'\n\n\ndef describe_a(x):\n    return ['1: another message, shared by all', x, 'a']\n\n\ndef describe_b(x):\n    return ('1: another message, shared by all', x, 'b')\n\n\n"
+    "def describe_c(x):\n    return {'1: another message, shared by all': x}\n\n\ndef describe_d(x):\n    return '1: another message, shared by all' * x\n\n\ndef describe_e(x):\n    return '1: another message, shared by all'[x:]\n\n\n"
+    "print(PYREFACT_OVERUSED_CONSTANT_0)\nprint(describe_a(1), describe_b(2), describe_c(3), describe_d(2), describe_e(20))\nprint(PYREFACT_OVERUSED_CONSTANT_0.upper())\n",
+    "pyrefact_overused_constant_0 = 5\n\n\ndef fa():\n    return 'a long shared text, repeated often' + 'a'\n\n\ndef fb():\n    return 'a long shared text, repeated often' + 'b'\n\n\ndef fc():\n    return 'a long shared text, repeated often' + 'c'\n\n\n"
+    "def fd():\n    return 'a long shared text, repeated often' + 'd'\n\n\ndef fe():\n    return 'a long shared text, repeated often' + 'e'\n\n\nprint(fa(), fb(), fc(), fd(), fe(), pyrefact_overused_constant_0)\n",
     # a variable that shadows a builtin, referenced (as the builtin) before it is assigned
     "print(type(1).__name__)\nfirst, *type = 1, 2, 3\nprint(first, type)\n",
     "print(len('ab'))\n\n\ndef run():\n    print(max(1, 2))\n    return 1\n\n\nrun()\nmax = run()\nlen = 3\nprint(max, len)\n",
